@@ -340,7 +340,9 @@ pub fn one_history(id: u64, seed: u64, max_ops: usize, max_len: usize, panics: b
             }
             10..=34 => {
                 let n = if rng.gen_range(0..8) == 0 { rng.gen_range(0..=max_len + 4) } else { rng.gen_range(0..=12) };
-                trace::rec(json!({"ev":"call","op":"request","arg":n}));
+                // "everything that is left": the natural way to ask for it is a huge length
+                let n = if rng.gen_range(0..25) == 0 { [usize::MAX, isize::MAX as usize, usize::MAX - 16384][rng.gen_range(0..3)] } else { n };
+                trace::rec(json!({"ev":"call","op":"request","arg": n.min(2_000_000_000)}));
                 let r = catch(|| reader.request(n).len());
                 match r {
                     Ok(l) => trace::rec(merge(json!({"ev":"ret","op":"request","panic":false,"val":l}), state(&reader))),
